@@ -99,6 +99,17 @@ TEXT = {
                 "w.r.t. the declarative selfOK predicate is not yet a theorem.",
         "technique": "Lean 4 proof (C05 soundness + counting, induction over the chain) + differential correspondence on forged chains",
     },
+    "C11": {
+        "text": "Proved in Lean for every list of global rules, every path and every history: a successful global-rule pass means every "
+                "matching threshold rule is met by the number of accepted principals (C11_threshold_enforced) and, for an entry with an "
+                "earlier unskipped entry, every matching block-force-pushes rule saw the target descend from it (C11_ff_enforced); with "
+                "the F1 repair the exhaustive verifier only ADDS principals: acceptance implies acceptance by the delegation verifiers "
+                "alone with the same verifier name (C11_exhaustive_adds_only). Whole-history monotonicity (C11_monotone_statement) is "
+                "checked on the REAL verifier by verifying every generated history under P+G and, on a sibling repository, under P.",
+        "note": TB + "On the unchanged tree monotonicity is FALSE (open finding F1): the exhaustive verifier ends the verifier loop, so any "
+                "global rule disables the delegation rules; the model reproduces this and the violating histories are attributed to F1.",
+        "technique": "Lean 4 proof (induction over the global-rule list; case analysis of the verifier loop) + differential/metamorphic correspondence",
+    },
 }
 
 NOT_YET = {}
